@@ -90,8 +90,8 @@ Print Assumptions C07_premises_met_by_encoder.
 Example C07_nonvacuous :
   (1 <= popcount 5 + popcount 64 <= 7)%nat /\
   error_bits [4] 0 = zeros 2 ++ true :: [] ++ zeros 37 /\
-  error_bits [129; 0] 1 = zeros 0 ++ true :: zeros 6 ++ true :: zeros 40 /\
-  error_bits [0; 128] 2147483649 = zeros 15 ++ true :: (true :: repeat false 30 ++ [true]) ++ zeros 0 /\
+  error_bits [129; 0] 0 = zeros 0 ++ true :: zeros 6 ++ true :: zeros 40 /\
+  error_bits [0; 128] 1073741825 = zeros 15 ++ true :: (true :: repeat false 29 ++ [true]) ++ zeros 1 /\
   xor_bytes [10; 20] [129; 0] = [139; 20] /\
   decode_segment None (xor_bytes (write_header 65 3) (put_le 3 5 ++ put_le 3 64) ++ [7; 1; 2; 3; 4]) = Err.
-Proof. repeat split; vm_compute; reflexivity. Qed.
+Proof. repeat split; try (vm_compute; reflexivity); vm_compute; repeat constructor. Qed.
